@@ -122,6 +122,7 @@ func c19Key(buf []byte, b *z.Bloom, S uint16) []byte {
 		}
 	}
 	buf = binary.LittleEndian.AppendUint16(buf, S)
+	buf = z.VerifBloomExtra(buf, b) // private state the filter may have gained (empty on the known layout)
 	// ElemNum is a public counter the current code never reads, but code MAY branch on it (a
 	// seeded "Clear does nothing when ElemNum == 0" change was hidden by leaving it out of the
 	// key: a filter restored from JSON has ElemNum 0 with a populated bitset). Keeping the exact
@@ -393,9 +394,8 @@ func c19Explore(r *ev.Run, cfg *c19Config, depth int, deadline time.Time, obsSet
 	pr := c19Params(fresh)
 	cfg.SizeBits, cfg.Locations, cfg.Shift = pr[1]+1, pr[2], pr[3]
 	cfg.Depth = depth
-	if uint64(len(c19Bits(fresh)))*64 != cfg.SizeBits {
-		ev.Fatalf("C19: unexpected filter layout: %d words for size mask %#x", len(c19Bits(fresh)), pr[1])
-	}
+	// (no assumption on the layout: a bitset that is larger than the addressed size, or a size
+	// below one word, is the filter's own business; the oracle is behavioural)
 	var events []c19Ev
 	for i := 0; i < 16; i++ {
 		events = append(events, c19Ev{c19Add, uint8(i)})
@@ -493,7 +493,7 @@ func c19(tier string, r *ev.Run, replay string) {
 		return
 	}
 
-	entries := []float64{1, 100, 512, 513, 1000, 5000}
+	entries := []float64{1, 20, 33, 100, 512, 513, 1000, 5000}
 	locs := []float64{1, 2, 3, 7}
 	rates := []float64{0.5, 0.1, 0.01, 0.0001, 0.75, 0.9, 0.99} // incl. rates close to 1 (a single hash location)
 	depth := 5
